@@ -51,7 +51,11 @@ add("C19", "hypothesis-generated scenarios with thresholds placed from a dry run
     "Generated search over 1-4 conditions on the six monitored quantities, both inequalities, phase selection, or/and mixes and thresholds placed (from a dry run of the same deterministic scenario) to be met early, late or never, over 1-3 solve calls: the stop step, the end time when never met, latching of satisfaction and of the reported time, crossing time inside the crossing step and equal to the linear interpolation are recomputed from the recorded history; TTP calculator entries are compared with independent conditioned runs per temperature (-1 when never met).",
     "toy binary backend; conditions already true at the first tested step only need to latch")
 
-NOT_YET = {}
+add("C04", "hypothesis-generated diffusion scenarios on stub backends; per-step conservation/boundary invariants evaluated by an observer with the step size captured by an iterator wrapper (invariant over histories, across solve calls)",
+    "Generated search over both diffusion models, binary/ternary element sets, 3-120 nodes, initial profiles assembled from random sequences of the six build steps, constant / break-point / field temperatures, every mix of flux and composition boundary conditions per element and side, both iterators, 1-4 consecutive solve calls, homogenization rules and cache toggles. After every accepted step the mesh sum of each flux-flux element must change by (J_left - J_right) dt/dz to rounding (also across solve calls), fixed-composition nodes keep the value they had after set-up, compositions stay in [min, 1-min].",
+    "stub diffusivity / synthetic ideal-solution mobility provider; steps on which the documented clip engaged are counted, not judged")
+
+NOT_YET = {"C09": "only the composition-cache (HashTable) clause is built so far; thermodynamic query purity on the shipped databases is pending - claimed once complete"}
 
 ALL = ["C%02d" % i for i in range(1, 21)]
 
